@@ -6,7 +6,7 @@ session flag as a truth table over the session-defining fields, inert idle back-
 progress of every non-idle back-space.  Not decided: the differential clause beyond
 "all composition fields are empty"."""
 from engine.mir import E, apath, strip_refs, is_const, const_val, callee_name, self_path
-from engine.analyses import (enumerate_paths, path_conditions, path_return, bool_of, truth_table, ModSets, PathLimit)
+from engine.analyses import (enumerate_paths, path_conditions, path_return, bool_of, truth_table, ModSets, PathLimit, peel_conv)
 from engine.report import site_of
 from . import common, builders
 
@@ -44,8 +44,29 @@ def _empty_test(d):
     return None
 
 
-def analyse_paths(prog, fnkey, mods):
+DEFINITE_GROW = ("String::push", "Vec::<T, A>::push", "Option::<T>::insert", "Option::<T>::replace", "Option::<T>::get_or_insert")
+SESSION = "<session>"       # pseudo field: "some session-defining field is non-empty" (established by the session flag's true edge)
+
+
+def _flag_test(d, flag_fn):
+    """If bool E d is (a negation of) a call of the session-flag function on self: the value d has while a session is ongoing."""
+    if flag_fn is None:
+        return None
+    pol = True
+    d = strip_refs(d)
+    while d.k == "un" and d.a[0] == "Not":
+        d = strip_refs(d.a[1])
+        pol = not pol
+    if d.k == "call" and d.a[0] == flag_fn and d.a[1] and self_path(d.a[1][0]) == ():
+        return pol
+    return None
+
+
+def analyse_paths(prog, fnkey, mods, sess=(), flag_fn=None):
     """Per acyclic path: final abstract state of self's fields, the writes, the return value.
+    States: 'E' empty, 'NE' definitely non-empty, 'N' unknown.  `flag_fn` is the session-flag function of the same struct:
+    its false edge makes every field of `sess` empty, its true edge sets the pseudo field SESSION to 'NE' (until a session
+    field is shrunk, cleared or written by an unknown callee).
     The function is analysed with its loop-free private helpers spliced in (e.g. a shared reset helper)."""
     from . import roles as _roles
     b = _roles.ib_paths(prog, fnkey)
@@ -69,12 +90,20 @@ def analyse_paths(prog, fnkey, mods):
                             f = sp[0]
                             v = strip_refs(val)
                             is_none = v.k == "agg" and str(v.a[0]).endswith("Option::None")
+                            is_some = v.k == "agg" and str(v.a[0]).endswith("Option::Some")
                             if len(sp) == 1 and is_none:
                                 state[f] = "E"
                                 writes.append((f, "=None", bb))
+                                if f in sess:
+                                    state.pop(SESSION, None)
+                            elif len(sp) == 1 and is_some:
+                                state[f] = "NE"
+                                writes.append((f, "grow", bb))
                             else:
                                 state[f] = "N"
                                 writes.append((f, "assign", bb))
+                                if f in sess:
+                                    state.pop(SESSION, None)
                     else:
                         env[s["place"]["l"]] = val
             t = blk["term"]
@@ -89,22 +118,33 @@ def analyse_paths(prog, fnkey, mods):
                         if len(sp) == 1 and any(name.endswith(c) for c in CLEARING):
                             state[f] = "E"
                             writes.append((f, "clear", bb))
+                            if f in sess:
+                                state.pop(SESSION, None)
                         elif any(name.endswith(c) for c in SHRINKING):
                             if state.get(f) == "NE":
                                 state[f] = "N"
                             writes.append((f, "shrink", bb))
+                            if f in sess:
+                                state.pop(SESSION, None)
                         elif any(name.endswith(c) for c in GROWING):
-                            state[f] = "N"
+                            if len(sp) == 1 and any(name.endswith(c) for c in DEFINITE_GROW):
+                                state[f] = "NE"
+                            elif state.get(f) != "NE":
+                                state[f] = "N"
                             writes.append((f, "grow", bb))
                         else:
                             state[f] = "N"
                             writes.append((f, "call:" + name, bb))
+                            if f in sess:
+                                state.pop(SESSION, None)
                         handled = True
                 if not handled:
                     for (root, fields, via) in mods.writes_of_call(b, bb, t):
                         if root.k == "arg" and root.a[0] == 1 and fields:
                             state[fields[0]] = "N"
                             writes.append((fields[0], "call:" + via, bb))
+                            if fields[0] in sess:
+                                state.pop(SESSION, None)
                 if not t["dest"]["p"]:
                     env[t["dest"]["l"]] = E("call", name, tuple(args), bb, t=t)
             elif t["k"] == "switch" and vals is not None:
@@ -112,7 +152,23 @@ def analyse_paths(prog, fnkey, mods):
                 allv = tuple(v for v, _ in t["targets"])
                 bv = bool_of((d, vals, allv, t["discr_ty"]))
                 et = _empty_test(d)
-                if et and bv is not None:
+                fl = _flag_test(d, flag_fn)
+                if fl is not None and bv is not None:
+                    ongoing = (bv == fl)
+                    if ongoing:
+                        if sess and all(state.get(f) == "E" for f in sess):
+                            infeasible = True
+                            break
+                        state[SESSION] = "NE"
+                    else:
+                        if any(state.get(f) == "NE" for f in sess) or state.get(SESSION) == "NE":
+                            infeasible = True
+                            break
+                        for f in sess:
+                            state[f] = "E"
+                            if not any(w[0] == f and w[1] not in ("clear", "=None") for w in writes):
+                                refined_before_write[f] = True
+                elif et and bv is not None:
                     f, when_empty = et
                     if bv == when_empty:
                         if state.get(f) == "NE":
@@ -156,14 +212,20 @@ def run(ctx):
                   "the context reports an ongoing session exactly while composition state exists")
     r4 = chk.rule("C06.R4", "idle back-space is inert; every other back-space makes progress",
                   "a backspace when idle starts nothing; repeated backspaces always reach the idle state")
+    r5 = chk.rule("C06.R5", "invariant kept by every event: composition state (raw keys included) exists only while the session flag is true",
+                  "an idle context holds nothing of an earlier word (the idle exits of R2/R4 rely on it); non-empty pre-edit text implies an ongoing session")
+    r6 = chk.rule("C06.R6", "a back-space that keeps the session returns a non-empty suggestion",
+                  "after a backspace that returns an empty suggestion the context reports no ongoing session")
 
     for ty in sorted(roles):
         short = ty.split("::")[-1]
         term_fns = {ev: prog.method_impl(ty, ev) for ev in ("candidate_committed", "finish_input_session", "backspace_event")}
         analysed = {}
+        sess0 = tuple(roles[ty]["session_fields"])
+        og0 = prog.method_impl(ty, "ongoing_input_session")
         try:
             for ev, fk in term_fns.items():
-                analysed[ev] = analyse_paths(prog, fk, mods)
+                analysed[ev] = analyse_paths(prog, fk, mods, sess0, og0)
         except PathLimit as e:
             r2.undecidable("%s:paths" % short, "cannot enumerate paths of a terminating event: %s" % e)
             continue
@@ -174,8 +236,7 @@ def run(ctx):
         terminating = []
         for ev, (b, paths) in analysed.items():
             for p in paths:
-                ret = strip_refs(p["ret"]) if p["ret"] is not None else None
-                is_empty_ret = ret is not None and ret.k == "call" and ret.a[0] in empty_ctor
+                is_empty_ret = _ret_emptiness(b, p, empty_ctor) in ("empty-ctor", "tested-empty")
                 if ev == "backspace_event" and not is_empty_ret:
                     continue
                 terminating.append((ev, b, p))
@@ -266,8 +327,7 @@ def run(ctx):
                 r3.violation("%s:sess.%s" % (short, f), "session flag tests self.%s which no terminating event resets" % f, common.fn_line(prog, og))
         # R4
         for p in bpaths:
-            ret = strip_refs(p["ret"]) if p["ret"] is not None else None
-            is_empty_ret = ret is not None and ret.k == "call" and ret.a[0] in empty_ctor
+            is_empty_ret = _ret_emptiness(bsb, p, empty_ctor) in ("empty-ctor", "tested-empty")
             entry_idle = all(p["entry_empty"].get(f) for f in sess)
             pid = "%s.backspace@%s" % (short, "/".join(_cond_sig(bsb, p)))
             last_bb = p["path"][-2][0] if len(p["path"]) > 1 else p["path"][-1][0]
@@ -285,10 +345,162 @@ def run(ctx):
                                  site_of(bsb, last_bb))
                 else:
                     r4.ok(pid, "progress: %s" % prog_w)
+        # R5: the invariant  (some session field non-empty) ∨ (every composition field empty)  is kept by every non-terminating exit
+        for ev in ("get_suggestion", "backspace_event", "update_engine"):
+            fk = prog.method_impl(ty, ev)
+            try:
+                eb, epaths = analysed[ev] if ev in analysed else analyse_paths(prog, fk, mods, sess0, og0)
+            except PathLimit as e:
+                r5.undecidable("%s.%s:paths" % (short, ev), "cannot enumerate paths: %s" % e)
+                continue
+            n_touch = 0
+            for p in epaths:
+                kind = _ret_emptiness(eb, p, empty_ctor)
+                if ev == "backspace_event" and kind in ("empty-ctor", "tested-empty"):
+                    continue            # terminating or idle exits: R2 / R4
+                w_S = [(f, op) for (f, op, _) in p["writes"] if f in S]
+                if not w_S:
+                    continue            # composition state untouched: invariant carried over from entry
+                n_touch += 1
+                pid = "%s.%s:inv@%s" % (short, ev, "/".join(_cond_sig(eb, p)))
+                last_bb = p["path"][-2][0] if len(p["path"]) > 1 else p["path"][-1][0]
+                harmless = all((f not in sess0) and op in ("clear", "=None", "shrink") for (f, op) in w_S)
+                sess_ne = any(p["state"].get(f) == "NE" for f in sess0) or p["state"].get(SESSION) == "NE"
+                all_e = all(p["state"].get(f) == "E" for f in S)
+                if harmless:
+                    r5.ok(pid, "only shrinks non-session fields")
+                elif sess_ne:
+                    r5.ok(pid, "session flag provably true at this exit")
+                elif all_e:
+                    r5.ok(pid, "every composition field empty at this exit")
+                else:
+                    grown = sorted({f for (f, op) in w_S if f not in sess0 and op not in ("clear", "=None", "shrink")})
+                    r5.violation(pid, "this exit of %s writes %s but neither shows the session flag true (%s may all be empty here) nor every composition field empty — "
+                                 "%s" % (ev, sorted({f for f, _ in w_S}), ", ".join(sess0),
+                                         ("self.%s can keep raw keys of a key that composed nothing; an idle back-space does not clear them and they leak into the next word"
+                                          % grown[0]) if grown else "composition state can outlive the session"),
+                                 site_of(eb, last_bb), {"writes": w_S, "state": {k: v for k, v in p["state"].items()}})
+            if n_touch == 0:
+                r5.ok("%s.%s:inv" % (short, ev), "no non-terminating exit writes composition state")
+        # R6: non-terminating back-space exits return something visible
+        bsb6, bpaths6 = analysed["backspace_event"]
+        sub02 = None
+        for p in bpaths6:
+            kind = _ret_emptiness(bsb6, p, empty_ctor)
+            if kind in ("empty-ctor", "tested-empty"):
+                continue
+            pid = "%s.backspace:visible@%s" % (short, "/".join(_cond_sig(bsb6, p)))
+            last_bb = p["path"][-2][0] if len(p["path"]) > 1 else p["path"][-1][0]
+            if kind == "tested-nonempty":
+                r6.ok(pid, "returned only after Suggestion::is_empty() was false")
+                continue
+            ret = strip_refs(p["ret"]) if p["ret"] is not None else None
+            srcs = _return_sources(prog, ret, ctor_names) if ret is not None else None
+            if not srcs:
+                r6.undecidable(pid, "this back-space exit returns %r, neither the empty suggestion nor a recognised constructor" % (ret,), site_of(bsb6, last_bb))
+                continue
+            verdicts = []
+            for (cname, call) in srcs:
+                if cname == "list":
+                    if sub02 is None:
+                        from .c01 import subrun
+                        sub02 = subrun(ctx, "c02")
+                    if sub02.get("C02.R3") or sub02.get("*"):
+                        verdicts.append(("undecidable", "a list suggestion is returned but C02.R3 (lists are non-empty at construction) does not hold"))
+                    else:
+                        verdicts.append(("ok", "list suggestion: non-empty at construction (C02.R3)"))
+                elif cname == "lonely":
+                    txt = peel_conv(call.a[1][0])
+                    spx = self_path(txt)
+                    if spx and len(spx) == 1 and p["state"].get(spx[0]) == "NE":
+                        verdicts.append(("ok", "lonely suggestion of self.%s, which is non-empty here" % spx[0]))
+                    elif any(x.k == "call" and ("okkhor::" in x.a[0] or x.a[0] in prog.fns) for x in txt.walk()):
+                        from . import phonetic as _ph
+                        imgs, ver = _ph.okkhor_punct_images()
+                        erasing = sorted(f for f, reps in (imgs or []) if any(r == "" for r in reps))
+                        if imgs is None:
+                            verdicts.append(("undecidable", "okkhor's pattern table not found"))
+                        elif erasing:
+                            for f in erasing:
+                                verdicts.append(("violation:okkhor-erases:%s" % "-".join("%04X" % ord(c) for c in f),
+                                                 "the lonely suggestion returned by this back-space is the transliteration of the remaining text, and okkhor %s turns `%s` "
+                                                 "into nothing: with only that left the suggestion is empty while the session flag stays true" % (ver, f)))
+                        else:
+                            verdicts.append(("ok", "transliteration of a non-empty text; okkhor %s has no erasing pattern" % ver))
+                    else:
+                        verdicts.append(("undecidable", "cannot tell whether the lonely text %r is non-empty" % (txt,)))
+                else:
+                    verdicts.append(("undecidable", "returns the result of %s" % cname))
+            bad = [v for v in verdicts if v[0] != "ok"]
+            if not bad:
+                r6.ok(pid, "; ".join(sorted({v[1] for v in verdicts})))
+            for (st, msg) in bad:
+                if st == "undecidable":
+                    r6.undecidable(pid, msg, site_of(bsb6, last_bb))
+                else:
+                    r6.violation("%s.backspace:visible:%s" % (short, st.split(":", 1)[1]), msg, site_of(bsb6, last_bb))
     r1.floor(4, "3 fixed + 1 phonetic composition fields")
+    r5.floor(4, "key and back-space events of both methods")
+    r6.floor(3, "non-terminating back-space exits (fixed ≥2, phonetic ≥1)")
     r2.floor(8, "terminating exits: fixed commit 1, finish 1, backspace ≥3; phonetic commit ≥1, finish 1, backspace ≥2")
     r3.floor(3, "2 session flags + at least one branch field")
     r4.floor(5, "back-space paths of both methods (fixed ≥3, phonetic ≥2)")
+
+
+def _return_sources(prog, ret, ctor_names, depth=0):
+    """The Suggestion constructor calls a returned value can come from: [(ctor kind, call E)] — follows local callees invoked on the
+    same `self` (their own return sites); None if some source is not a constructor call."""
+    ret = strip_refs(ret)
+    if ret.k == "phi":
+        out = []
+        for x in ret.a[0]:
+            r = _return_sources(prog, x, ctor_names, depth)
+            if r is None:
+                return None
+            out.extend(r)
+        return out
+    if ret.k != "call":
+        return None
+    if ret.a[0] in ctor_names:
+        return [(ctor_names[ret.a[0]], ret)]
+    g = ret.a[0]
+    if g in prog.fns and depth < 4 and ret.a[1] and self_path(ret.a[1][0]) == ():
+        gb = prog.body(g)
+        out = []
+        for d in gb.defs.get(0, []):
+            if d[2] == "call" and not d[3]["dest"]["p"]:
+                t = d[3]
+                e = E("call", callee_name(t), tuple(gb.expr_operand(a) for a in t["args"]), d[0], t=t)
+                r = _return_sources(prog, e, ctor_names, depth + 1)
+            elif d[2] == "assign" and not d[3]["place"]["p"]:
+                r = _return_sources(prog, gb.expr_rvalue(d[3]["rv"]), ctor_names, depth + 1)
+            else:
+                r = None
+            if r is None:
+                return None
+            out.extend(r)
+        return out or None
+    return None
+
+
+def _ret_emptiness(b, p, empty_ctor):
+    """'empty-ctor' (returns Suggestion::empty()), 'tested-empty' / 'tested-nonempty' (the returned value passed Suggestion::is_empty on this path), or None."""
+    ret = strip_refs(p["ret"]) if p["ret"] is not None else None
+    if ret is not None and ret.k == "call" and ret.a[0] in empty_ctor:
+        return "empty-ctor"
+    if ret is None:
+        return None
+    for c in path_conditions(b, p["path"]):
+        d = strip_refs(c[0])
+        pol = True
+        while d.k == "un" and d.a[0] == "Not":
+            d = strip_refs(d.a[1])
+            pol = not pol
+        if d.k == "call" and d.a[0].endswith("Suggestion::is_empty") and d.a[1] and strip_refs(d.a[1][0]) == ret:
+            bv = bool_of(c)
+            if bv is not None:
+                return "tested-empty" if (bv == pol) else "tested-nonempty"
+    return None
 
 
 def _cond_sig(b, p):
